@@ -161,6 +161,11 @@ def _decide(res, src, dst, dst_asts, A, B, inputs, V, vis_exact, vname, costs, o
         m = e["match"]
         if m.get("kind", "nonempty") == "dom_superset":
             return [{"kind": "dom_superset", "prefix": m["prefix"]}]
+        if m.get("kind") == "dom_negated_false":
+            try:
+                return [{"kind": "all_false", "sigs": sorted(_au.antimonotone_domain_sigs(_au.parse(dst), m["prefix"]))}]
+            except RuntimeError:
+                return []
         rs = [_re.compile(r) for r in m["nonempty_result_preds"]]
         return [{"kind": "nonempty", "sigs": [sg for sg in sorted(dst_sigs) if any(r.search(sg[0]) for r in rs)]}]
 
@@ -273,6 +278,17 @@ def class_signature_holds(entry, dst, instance, consts):
     for c in consts:
         args += ["-c", c]
     extra = ""
+    if m.get("kind") == "dom_negated_false":
+        sigs = astutil.antimonotone_domain_sigs(astutil.parse(dst), m["prefix"])
+        if not sigs:
+            return False
+        ctl = clingo.Control(args, logger=lambda c, m_: None)
+        try:
+            ctl.add("base", [], dst + "\n" + instance)
+            ctl.ground([("base", [])])
+        except RuntimeError:
+            return False
+        return any(True for name, ar in sigs for _ in ctl.symbolic_atoms.by_signature(name, ar))
     if m.get("kind", "nonempty") == "dom_superset":
         pre = m["prefix"]
         pairs = [(n, a) for (n, a) in all_sigs if not n.startswith(pre) and (pre + n, a) in all_sigs]
